@@ -20,22 +20,22 @@ import (
 const modPath = "github.com/hujm2023/go-sms-protocol"
 
 type World struct {
-	Repo    string
-	Root    string // /verif
-	Pkgs    []*packages.Package
-	Prog    *ssa.Program
-	Fset    *token.FileSet
-	SSAPkg  map[string]*ssa.Package
-	Specs   map[string]*FuncSpec // key -> spec
-	Pures   map[string]*PureDef  // "pkg.name" and "name" (unique)
-	Lemmas  []*LemmaSpec
-	Layouts map[string]*LayoutType // "pkgpath.Type"
-	SpecErr []string
-	Files   []string // contract files
-	loops   map[*ssa.Function]*loopInfo
-	Known   map[string]*KnownFinding
+	Repo     string
+	Root     string // /verif
+	Pkgs     []*packages.Package
+	Prog     *ssa.Program
+	Fset     *token.FileSet
+	SSAPkg   map[string]*ssa.Package
+	Specs    map[string]*FuncSpec // key -> spec
+	Pures    map[string]*PureDef  // "pkg.name" and "name" (unique)
+	Lemmas   []*LemmaSpec
+	Layouts  map[string]*LayoutType // "pkgpath.Type"
+	SpecErr  []string
+	Files    []string // contract files
+	loops    map[*ssa.Function]*loopInfo
+	Known    map[string]*KnownFinding
 	OnlyProp string
-	debug   map[*ssa.Function]map[string][]*ssa.DebugRef
+	debug    map[*ssa.Function]map[string][]*ssa.DebugRef
 }
 
 func LoadWorld(repo, root string) (*World, error) {
@@ -124,6 +124,8 @@ func LoadWorld(repo, root string) (*World, error) {
 						old.Layout = fs.Layout
 					}
 					old.Props = append(old.Props, fs.Props...)
+					old.Inline = old.Inline || fs.Inline
+					old.Trusted = old.Trusted || fs.Trusted
 					continue
 				}
 				w.Specs[fs.Key] = fs
@@ -179,7 +181,9 @@ func funcKey(fn *ssa.Function) string {
 	return fn.String()
 }
 
-func shortKey(k string) string { return strings.TrimPrefix(strings.TrimPrefix(k, modPath+"/"), modPath+".") }
+func shortKey(k string) string {
+	return strings.TrimPrefix(strings.TrimPrefix(k, modPath+"/"), modPath+".")
+}
 
 // LookupFunc finds the SSA function for a contract key.
 func (w *World) LookupFunc(fs *FuncSpec) *ssa.Function {
@@ -239,7 +243,7 @@ func (w *World) pos(p token.Pos) string {
 // ---- loops
 
 type loopInfo struct {
-	Headers []*ssa.BasicBlock          // in block order: ordinal = index+1
+	Headers []*ssa.BasicBlock                            // in block order: ordinal = index+1
 	Body    map[*ssa.BasicBlock]map[*ssa.BasicBlock]bool // header -> blocks in loop
 	Ord     map[*ssa.BasicBlock]int
 }
